@@ -316,7 +316,8 @@ def named(st, name):
 def c01(tier):
     out = Outcome("C01", tier, "exploration")
     cfgs = SOLVER_CFGS_QUICK if tier == "quick" else SOLVER_CFGS_ALL
-    sts = [named(run_family(out, "fam_cn", cfgs, tier, limit_ms=10000, only_keys_prefix="C01"), "constraint-networks")]
+    sts = [named(run_family(out, "fam_cn", cfgs, tier, limit_ms=10000, only_keys_prefix="C01"), "constraint-networks"),
+           named(run_family(out, "fam_rules", cfgs, tier, limit_ms=10000, only_keys_prefix="C01"), "rules")]
     out.coverage = fam_coverage(sts,
         "F1 constraint networks (lib/fam_cn.py): `real x; real y; bool p;` + EVERY subset of <=3 statements of a pool of 33 (thorough 39): "
         "relations between linear expressions (strict, non-strict, ==, !=), boolean combinations (| -> ^ ! == & under and outside "
@@ -324,7 +325,10 @@ def c01(tier):
         "(thorough: all 8) configurations of {h_max,h_add} x {CHECK_INCONSISTENCIES off,on} x {Release, Debug+ASan}; when it reports a "
         "solution, every statement is re-evaluated on the reported values with exact (rational, eps) arithmetic and three-valued "
         "logic (unknown = not satisfied); for a disjunction statement some disjunct must hold entirely. distinct_nontrivial = number "
-        "of distinct programs (all distinct by construction). Further families (rules, timelines, objects) are judged by C03-C06/C17.")
+        "of distinct programs (all distinct by construction). F2 rules (lib/fam_rules.py): for every active goal atom the constraints, "
+        "subgoals (an atom of the right predicate with the right argument values must be in the plan) and disjunctions (some disjunct "
+        "must hold entirely) of its predicate's rule are re-evaluated on the atom's reported arguments; arguments written in facts and "
+        "goals must be reported as written. Timelines and objects are judged by C04-C06/C17.")
     out.assumptions = ["the exact evaluator of lib/riddle.py implements the reference semantics of DESIGN.md appendix A",
                        "timeouts (10 s) are undecided, not verdicts"]
     return out.finish()
@@ -335,7 +339,8 @@ def c02(tier):
     cfgs = SOLVER_CFGS_QUICK if tier == "quick" else SOLVER_CFGS_ALL
     sts = [named(run_family(out, "fam_cn", cfgs, tier, limit_ms=10000, only_keys_prefix="C02"), "ground-truth"),
            named(run_family(out, "fam_eqv", cfgs[:2] if tier == "quick" else cfgs, tier, limit_ms=10000, only_keys_prefix="C02"), "equivalence-classes"),
-           named(run_family(out, "fam_tl", cfgs[:2] if tier == "quick" else cfgs, tier, limit_ms=10000, only_keys_prefix="C02"), "planted-timelines")]
+           named(run_family(out, "fam_tl", cfgs[:2] if tier == "quick" else cfgs, tier, limit_ms=10000, only_keys_prefix="C02"), "planted-timelines"),
+           named(run_family(out, "fam_rules", cfgs[:2] if tier == "quick" else cfgs, tier, limit_ms=10000, only_keys_prefix="C02"), "planted-rules")]
     out.coverage = fam_coverage(sts,
         "(a) ground truth: every constraint-network program of lib/fam_cn.py (all subsets of <=3 statements of the pool): when the "
         "solver answers 'unsolvable' (solve() false) or 'inconsistent' (error while reading) an independent complete procedure - "
@@ -384,6 +389,26 @@ def c05(tier):
 def c06(tier):
     return tl_check("C06", tier, "C06 oracle: every active atom with start/end/duration has origin <= start <= end <= horizon and duration = end - start >= 0; "
                     "every active atom with 'at' has origin <= at <= horizon - for facts and goals, plain and smart-type predicates.", "C06")
+
+
+def c03(tier):
+    out = Outcome("C03", tier, "exploration")
+    cfgs = SOLVER_CFGS_QUICK if tier == "quick" else SOLVER_CFGS_ALL
+    sts = [named(run_family(out, "fam_rules", cfgs, tier, limit_ms=10000, only_keys_prefix="C03"), "rules"),
+           named(run_family(out, "fam_tl", cfgs, tier, limit_ms=10000, only_keys_prefix="C03"), "timelines")]
+    out.coverage = fam_coverage(sts,
+        "rules (lib/fam_rules.py): predicates Q(y){y>=0}, P(x){body} with 7 body shapes (parameter constraint, subgoal with an argument "
+        "expression, two subgoals, disjunctions of those), recursive R(n), mutually recursive A/B; EVERY combination of 0-2 facts of Q "
+        "with constants, a goal of P with free/constant argument and an optional second goal (so goals unify with facts, with each "
+        "other, or are activated and expanded); recursion depth 0..3(4); plus the timeline families of C04-C06 (facts and goals on "
+        "state variables/resources, which unify when their arguments coincide). Oracle on the causal structure of every solution "
+        "(read from the live solver: per atom phi, sigma, resolvers with rho and unification target, preconditions, causes): an atom in "
+        "the plan is Active or Unified; Unified => an active unification resolver whose target is Active, of the same predicate, with "
+        "equal values of EVERY argument; an active goal's rule flaws are in the plan; the relation 'gave rise to' + 'is unification "
+        "target of' is acyclic; declared facts/goals are in the plan with the written arguments. distinct_nontrivial = distinct programs.")
+    out.assumptions = ["causal structure read with -fno-access-control from solver::reason / flaw::resolvers / resolver::preconditions",
+                       "rule constraints themselves are judged under C01 (key prefix C01) by the same family"]
+    return out.finish()
 
 
 def c16(tier):
@@ -450,7 +475,7 @@ def c18(tier):
 
 
 # ------------------------------------------------------------------------------------------------
-PROPS = {"C04": c04, "C05": c05, "C06": c06, "C01": c01, "C02": c02, "C16": c16, "C18": c18, "C15": c15, "C13": c13, "C11": lambda tier: relmc_check("C11", tier), "C12": lambda tier: relmc_check("C12", tier)}
+PROPS = {"C03": c03, "C04": c04, "C05": c05, "C06": c06, "C01": c01, "C02": c02, "C16": c16, "C18": c18, "C15": c15, "C13": c13, "C11": lambda tier: relmc_check("C11", tier), "C12": lambda tier: relmc_check("C12", tier)}
 for _p in ("C07", "C08", "C09", "C10", "C14"):
     PROPS[_p] = (lambda pid: (lambda tier: netmc_check(pid, tier)))(_p)
 
